@@ -866,6 +866,8 @@ def translate(repo):
     import stores
     sites = stores.collect(repo)
     files["Stores_gen.v"] = stores.emit(sites)
+    import attrs
+    files["Attrs_gen.v"] = attrs.emit(*attrs.collect(repo))
     dump = dict(repo=os.path.abspath(repo),
                 consts={k: [str(v.numerator), str(v.denominator)] for k, v in consts.items()
                         if k in ("EPSILON", "MAX_ARC_WEIGHT", "MAX_DENSITY")},
